@@ -492,7 +492,7 @@ fn pattern_enumeration(outcomes: &[StepOut], max_n: usize, caps: &[Option<usize>
                             }
                             ops.push(QOp::Step(*o));
                         }
-                        out.push(QueueCase { cap: *cap, handler, handler_first: n % 2 == 0, direct_ctor: !handler && n % 3 == 0, ops });
+                        out.push(QueueCase { cap: *cap, handler, handler_first: n % 2 == 0, direct_ctor: !handler && n % 3 == 0, flush_fails: handler && n % 2 == 1, ops });
                     }
                 }
             }
@@ -672,6 +672,12 @@ fn run_writer(id: &'static str, tier: Tier, seed: u64, ctx: &Ctx, sh: u32) -> Ev
             return ev;
         }
     }
+    if id == "C07" {
+        // real pending socket errors (connected UDP socket, peer gone for a moment): nothing twice, refused never written
+        if !driver::run_random(&sockets::ConnectedUdpOnce, &ev, ctx, scale(tier.pick(150, 3_000)), 2) {
+            return ev;
+        }
+    }
     if id == "C19" {
         // a connected UDP socket whose peer was gone for a moment (pending socket error)
         if !driver::run_random(&sockets::ConnectedUdpGreedy, &ev, ctx, scale(tier.pick(100, 2_000)), 2) {
@@ -772,6 +778,7 @@ pub fn replay(id: &'static str, campaign: &str, case: &serde_json::Value, tier: 
     try_camp!(crate::queue::concurrent::LastSlotRace);
     try_camp!(crate::queue::concurrent::DropRace);
     try_camp!(sockets::ConnectedUdpGreedy);
+    try_camp!(sockets::ConnectedUdpOnce);
     try_camp!(sockets::UdpRestart { name: "udp-receiver-restart", telemetry: false });
     try_camp!(sockets::UdpRestart { name: "udp-receiver-restart-stats", telemetry: true });
     try_camp!(crate::queue::concurrent::HandlerChain);
